@@ -169,10 +169,11 @@ type Frame struct {
 	visits   map[*ssa.BasicBlock]int
 	depth    int
 	startIdx int // resume in the middle of a block (used when paths are split at an instruction)
+	catching bool // a deferred closure of this frame calls recover()
 }
 
 func (fr *Frame) clone() *Frame {
-	n := &Frame{fn: fr.fn, regs: make(map[ssa.Value]Value, len(fr.regs)+8), returned: fr.returned, ret: fr.ret, depth: fr.depth}
+	n := &Frame{fn: fr.fn, regs: make(map[ssa.Value]Value, len(fr.regs)+8), returned: fr.returned, ret: fr.ret, depth: fr.depth, catching: fr.catching}
 	for k, v := range fr.regs {
 		n.regs[k] = v
 	}
